@@ -164,7 +164,6 @@ async def worker_serve(
 
         for server in servers:
             server.close()
-            await server.wait_closed()
 
         try:
             gathered_server_tasks = asyncio.gather(*server_tasks)
@@ -175,6 +174,11 @@ async def worker_serve(
             # Retrieve the Gathered Tasks Cancelled Exception, to
             # prevent a warning that this hasn't been done.
             gathered_server_tasks.exception()
+
+            # wait_closed waits for the connections as well (Python
+            # 3.12), hence only after the graceful timeout
+            for server in servers:
+                await server.wait_closed()
 
             await lifespan.wait_for_shutdown()
             lifespan_task.cancel()
